@@ -305,7 +305,7 @@ func init() {
 			}
 		}})
 
-	register(&Obligation{ID: "C06.c", Props: []string{"C06", "C01"}, Template: "completeness-loop",
+	register(&Obligation{ID: "C06.c", Props: []string{"C06", "C01", "C03", "C07", "C08"}, Template: "completeness-loop",
 		Desc: "recovery.LoadCheckpointList reads the checkpoint of every handle (selected by the handle's id), merges the WAL handles and every level of every remaining document into the first, without skipping; a missing checkpoint id is a hard error",
 		Run: func(r *Run) {
 			f := r.P.Func("dkv/recovery", "LoadCheckpointList")
